@@ -231,7 +231,13 @@ class TermEval:
                 return self.ev(n["ch"][1], env)
             if c is False:
                 return self.ev(n["ch"][2], env)
-            return app("ite", c, self.ev(n["ch"][1], env), self.ev(n["ch"][2], env))
+            arms = []
+            for ch in n["ch"][1:3]:
+                try:
+                    arms.append(self.ev(ch, env))
+                except Raised:
+                    arms.append("(raise)")       # `cond ? value : throw ...`
+            return app("ite", c, arms[0], arms[1])
         if k == "MemberExpr":
             base = self.ev((n.get("ch") or [None])[0], env)
             return app("." + n.get("name", "?"), base)
